@@ -25,6 +25,7 @@ func run(c *mon.Ctx) {
 	c.Floor("rejected.encrypted", 100)
 	c.Floor("rejected.table_id", 100)
 	c.Floor("rejected.identifier", 100)
+	c.Floor("decode_again_after_edit", 2000)
 	c.Stream("sections", c.N(60000, 60000000), func(i int, r *gen.Rand) {
 		s := ref.GenSig(r, true)
 		if r.Chance(8) {
@@ -32,7 +33,13 @@ func run(c *mon.Ctx) {
 		}
 		rej := ""
 		if r.Chance(12) {
-			switch r.Intn(4) {
+			switch r.Intn(5) {
+			case 4:
+				// encrypted AND an unreadable command type: everything behind the flag is ciphertext
+				rej = "encrypted"
+				s.Encrypted = true
+				s.Cmd = r.PickByte([]byte{0x04, 0x07, 0xff, 0x5a, 0x99})
+				s.CmdRaw = r.Bytes(r.Intn(12))
 			case 0:
 				rej = "unsupported_command"
 				s.Cmd = r.PickByte([]byte{0x04, 0x07, 0xff, 0x01, 0x08})
@@ -78,6 +85,28 @@ func run(c *mon.Ctx) {
 		s35.CheckDecoded(c, "decode", &s, x, snap)
 		if !bytes.Equal(in, snap) {
 			c.Fail("decode:input-modified", "decoding or a getter modified the input", wit{mon.Hex(snap), s35.Shape(&s), ""})
+		}
+		// decoding is a function of the bytes: edit the decoded object in place, decode the same bytes again
+		if len(s.Descs) > 0 && i%3 == 0 {
+			for _, d := range x.Descriptors() {
+				for _, cp := range d.Components() {
+					cp.SetPTSOffset(cp.PTSOffset() ^ 0x155555555)
+					cp.SetComponentTag(cp.ComponentTag() ^ 0xff)
+				}
+				for _, u := range d.MID() {
+					u.SetUPID([]byte("edited"))
+				}
+				d.SetEventID(d.EventID() ^ 0xffffffff)
+				d.SetSegmentNumber(d.SegmentNumber() + 1)
+			}
+			x.SetTier(x.Tier() ^ 0xfff)
+			in2 := append([]byte{}, snap...)
+			if y, err := scte35.NewSCTE35(in2); err != nil || y == nil {
+				c.Fail("decode-again:error", fmt.Sprintf("the same bytes were rejected when decoded a second time: %v", err), wit{Input: mon.Hex(snap), Shape: s35.Shape(&s)})
+			} else {
+				s35.CheckDecoded(c, "decode-again-after-editing-the-first-object", &s, y, snap)
+			}
+			c.Count("decode_again_after_edit")
 		}
 		if has, _ := s.CommandHasTime(); has || len(s.Descs) > 0 {
 			ds := map[string]int{}
